@@ -282,6 +282,11 @@ def run(prop_id, tier, seed, replay=None):
             verdict["wall"] += v["wall"]
             verdict["raw"] += v["raw"]
         all_obs = [t for k in run_keys for t in observed[k]]
+        cut = [k for k in run_keys if stats[k].get("aborted")]
+        if cut and not verdict["violations"]:
+            raise core.MachineryError("replay of %s was cut short (goroutines of the code under test left blocked for "
+                                      "good in %s paths) and no property violation was recorded" % (
+                                          cut, [stats[k].get("abandoned_bubbles") for k in cut]))
         # leave goroutine dumps in replay files only
         dr = drift_of(all_obs)
         n_paths = sum(s.get("paths", 0) for s in stats.values()) or len(all_obs)
